@@ -493,7 +493,7 @@ class Instrument(ast.NodeTransformer):
         node.body = self.body(node.body)
         for h in node.handlers:
             if h.type is not None:
-                h.type = self.visit(h.type)
+                h.type = call('U', self.visit(h.type))
             pre = self.retag([(h.name, site_of(h))], 'except') if h.name else []
             h.body = pre + self.body(h.body)
         node.orelse = self.body(node.orelse) if node.orelse else []
